@@ -18,7 +18,10 @@ FWD = {
     'L1': lambda x: 2 * x + 1, 'L2': lambda x: 3 * x + 2, 'L3': lambda x: x + 10,
     'L4': lambda x, y: x + 3 * y + 5, 'L5': lambda x: 2 * x - 7, 'L6': lambda x: x,
     'L7': lambda x: x + 100, 'L8': lambda x: 3 - x, 'L9': lambda x, y: 5 * x - 2 * y + 1,
+    'L10': lambda x, y: 2 * x - y + 40,
 }
+# backward function of the many-to-one helper: one value per input
+BWD = {'L10': lambda z: (z - 20, z * 0.5 + 3)}
 INV = {
     'L1': lambda y: (y - 1) / 2, 'L3': lambda y: y - 10, 'L6': lambda y: y, 'L8': lambda y: 3 - y,
 }
@@ -26,6 +29,7 @@ MENU = {
     'L1': (('d1.a',), 'd2.a', True), 'L2': (('d2.a',), 'd3.a', False), 'L3': (('d1.b',), 'd3.a', True),
     'L4': (('d1.a', 'd1.b'), 'd2.b', False), 'L5': (('d3.a',), 'd1.a', False), 'L6': (('d2.b',), 'd3.b', True),
     'L7': (('d2.a',), 'd2.b', False), 'L8': (('d3.b',), 'd1.b', True), 'L9': (('d2.a', 'd3.a'), 'd1.b', False),
+    'L10': (('d1.a', 'd1.b'), 'd2.b', True),
 }
 
 
@@ -55,6 +59,9 @@ class LWorld(object):
         frm, to, inv = MENU[lid]
         if lid == 'L6':
             return LinkSame(self.cid[frm[0]], self.cid[to])
+        if lid in BWD:
+            from glue.core.link_helpers import MultiLink
+            return MultiLink([self.cid[f] for f in frm], [self.cid[to]], forwards=FWD[lid], backwards=BWD[lid])
         return ComponentLink([self.cid[f] for f in frm], self.cid[to], using=FWD[lid],
                              inverse=INV.get(lid) if inv else None)
 
@@ -119,6 +126,8 @@ class LWorld(object):
                 frm, to, inv = MENU[lid]
                 if direction == 'fwd':
                     ins, f = frm, FWD[lid]
+                elif direction in ('inv1', 'inv2'):
+                    ins, f = (to,), (lambda z, _b=BWD[lid], _i=int(direction[3]) - 1: _b(z)[_i])
                 else:
                     ins, f = (to,), INV[lid]
                 options = [sorted(self.admissible(d, i, exp, memo)) for i in ins]
